@@ -1,13 +1,26 @@
 """C11 - multi-session / multi-directory continuity without overwrite (DrfChannel: FinalGrows, FinalFrozen, Place refusal)."""
+from ..core import quiet_stderr
 from . import chan_common as cc
 
-PREFIXES = ("C11-", "C05-final-file-changed", "final-file-set")
+PREFIXES = ("C11-", "C05-final-file-changed", "final-file-set", "C08-bounds", "C01-read-", "C01-stored-values")
+
+WHAT = ("2-4 sessions per channel with starts later than, earlier than and inside recorded periods, in 1-2 top-level directories whose "
+        "recorded periods interleave (one directory holds the first and last third, the other the middle); single-parameter mismatches "
+        "(12 stored parameters) must be refused with the directory byte-identical; final files of earlier sessions are hashed after every "
+        "later call; readers over one or several directories against the union of the specification's truth")
 
 
 def run(ctx):
-    cc.run(ctx, PREFIXES, nsim=ctx.pick(40, 1200), nrand=ctx.pick(60, 2500), sim_depth=ctx.pick(14, 18),
-           what="2-4 sessions per channel with starts later than, earlier than and inside recorded periods, in 1-2 top-level "
-                "directories; single-parameter mismatches (12 stored parameters) must be refused with the directory "
-                "byte-identical; final files of earlier sessions are hashed after every later call; reader over one or "
-                "several directories against the union of the specification's truth",
-           nsessions=None, bad_rate=0.03, empty_rate=0.0, observe_pairs=14, nvec=2)
+    cc.e1(ctx)
+    ctx.stage()
+    import digital_rf
+
+    with quiet_stderr():
+        s1, r1 = cc.e2(ctx, digital_rf, ctx.pick(40, 1200), ctx.pick(14, 18))
+        kw = dict(bad_rate=0.03, empty_rate=0.0, observe_pairs=14, nvec=2)
+        s2, _ = cc.e3(ctx, digital_rf, ctx.pick(30, 1200), **kw)
+        s3, _ = cc.e3(ctx, digital_rf, ctx.pick(40, 1500), nd=2, nsessions=4, **kw)
+    scen = s1 + s2 + s3
+    cc.account(ctx, scen, len(s1), WHAT)
+    ctx.extra["two_directory_histories"] = sum(1 for s in scen if s["cfg"]["nd"] == 2)
+    ctx.validate("DrfChannelTrace", "DrfChannelTrace.cfg", scen, label="multi-session history", relevant=cc.relevance(PREFIXES))
